@@ -11,7 +11,7 @@ use proptest::prelude::*;
 use serde::{Deserialize, Serialize};
 use serde_json::json;
 
-pub const RULE: &str = "generated: accepted requests (all methods, HTTP versions, header multisets with repeated names and odd bytes, bodies, both carriers, folded or not) with generated principals (user / assumed role / service / several identities) and session data in the provider's answer. Oracle (round trip): the returned Parts equal the submitted ones -- method, version, URI string, and per header name the same values in the same order with the same total count -- and the body bytes are identical; when the model says folding applied, the body is empty, the returned path canonicalises to the reference canonical path and the multiset of decoded (name, value) pairs of the returned query equals URL pairs + body pairs (X-Amz-Signature pairs may be present or absent); principal and session data equal the provider's. Non-trivial: repeated header names, or a folded body with names on both sides, or non-empty session data; distinct by request digest.";
+pub const RULE: &str = "generated: accepted requests (all methods, HTTP versions, header multisets with repeated names and odd bytes, bodies, both carriers, folded or not) with generated principals (user / assumed role / service / several identities) and session data in the provider's answer. Also with further Authorization lines after the authenticating one, and with a logger rendering records down to TRACE level. Oracle (round trip): the returned Parts equal the submitted ones -- method, version, URI string, and per header name the same values in the same order with the same total count -- and the body bytes are identical; when the model says folding applied, the body is empty, the returned path canonicalises to the reference canonical path and the multiset of decoded (name, value) pairs of the returned query equals URL pairs + body pairs (X-Amz-Signature pairs may be present or absent); principal and session data equal the provider's. Non-trivial: repeated header names, or a folded body with names on both sides, or non-empty session data; distinct by request digest.";
 
 pub fn subs() -> Vec<Box<dyn AnySub>> {
     vec![
@@ -57,21 +57,6 @@ pub fn subs() -> Vec<Box<dyn AnySub>> {
             check: check_extra,
         }),
         Box::new(Sub {
-            name: "roundtrip-with-trace-logging",
-            quick: 15_000,
-            thorough: 200_000,
-            strat: || (plan(PlanOpts { logical: LogicalOpts { max_headers: 6, ..LogicalOpts::default() }, ..PlanOpts::default() }), any::<bool>()).prop_map(|(mut p, f)| {
-                if f && p.form.is_some() {
-                    p.cfg.fold = true;
-                }
-                p
-            }).boxed(),
-            check: |p, cc| {
-                exec::enable_log_capture();
-                exec::with_logs(|| check_roundtrip(p, cc)).0.map_err(|f| Failure::new(&format!("{}:trace-logging", f.sig), f.msg))
-            },
-        }),
-        Box::new(Sub {
             name: "roundtrip-large-fold",
             quick: 150,
             thorough: 3000,
@@ -104,6 +89,22 @@ pub fn subs() -> Vec<Box<dyn AnySub>> {
                     .boxed()
             },
             check: check_roundtrip,
+        }),
+        // (last: once the capturing logger is installed, trace-level arguments are evaluated for the rest of the process)
+        Box::new(Sub {
+            name: "roundtrip-with-trace-logging",
+            quick: 15_000,
+            thorough: 200_000,
+            strat: || (plan(PlanOpts { logical: LogicalOpts { max_headers: 6, ..LogicalOpts::default() }, ..PlanOpts::default() }), any::<bool>()).prop_map(|(mut p, f)| {
+                if f && p.form.is_some() {
+                    p.cfg.fold = true;
+                }
+                p
+            }).boxed(),
+            check: |p, cc| {
+                exec::enable_log_capture();
+                exec::with_logs(|| check_roundtrip(p, cc)).0.map_err(|f| Failure::new(&format!("{}:trace-logging", f.sig), f.msg))
+            },
         }),
     ]
 }
